@@ -71,6 +71,7 @@ TextPres ==
        S(<<49, 46, 53>>), S(<<45, 49, 46, 50, 56>>), S(<<49, 50, 51, 52, 53, 46, 54, 55, 56>>), S(<<49, 46, 53, 48>>),
        S(<<48>>), S(<<45, 48, 46, 48, 48>>), S(<<45, 48, 46, 52>>), S(<<45, 48, 46, 48, 48, 52>>), S(<<120, 121, 122>>), S(<<195, 169>>),
        S(<<49, 50, 51, 52, 53, 54, 55, 56, 57, 48, 49, 50>>),
+       S(<<195, 169, 195, 169>>), S(<<97, 195, 169>>), S(<<226, 130, 172>>),      \* two letters in four bytes, two in three, one in three
        [p |-> "char", i |-> 65], [p |-> "char", i |-> 233], [p |-> "char", i |-> 128512],
        BYT(<<>>), BYT(<<65>>), BYT(<<255, 254>>), BYT(<<1, 2>>), BYT(<<1, 2, 3>>), BYT(<<195, 169>>),
        BYT(<<1, 0, 0, 0, 2, 0, 0, 0, 3, 0, 0, 0>>), BYT(<<0, 1, 2, 3, 4, 5, 6, 7, 8, 9, 10, 11, 12, 13, 14, 15>>) >>
